@@ -166,9 +166,16 @@ def format_preserved(F, S):
     else:
         out.append(bad("R-SIB", inst, wc.loc(wc.body), wc.qn, req, "other stores into the format block: %s" % ", ".join(fmt_term(wc.term(x[0]["id"])) for x in other) or "no whole copy"))
     rh = F.fn(CLM + "::ReadAllWaveHeaders", nparams=3)
-    rd = [nd for nd in rh.nodes if nd["k"] == "CXXMemberCallExpr" and nd.get("fname") == "Read" and c05.mentions_term(rh.term(nd["args"][0]), [("var", p["n"], p["d"]) for p in rh.params if "WaveFormatEx" in (p.get("ct") or "")][0])]
+    rdefs = c05.alias_defs(rh)
+    fmts = [("var", p["n"], p["d"]) for p in rh.params if "WaveFormatEx" in (p.get("ct") or "")][0]
+    rd = [nd for nd in rh.nodes if nd["k"] == "CXXMemberCallExpr" and nd.get("fname") == "Read" and nd.get("args")
+          and c05.mentions_term(c05.resolve(rh.term(nd["args"][0]), rdefs), fmts)]
     st = [nd for nd in rh.nodes if is_store(nd) and rh.term(rh.kids(nd["id"])[0])[0] == "mem" and rh.term(rh.kids(nd["id"])[0])[2] == "cbSize"
           and rh.term(rh.kids(nd["id"])[1]) == ("const", 0)]
+    # the slot reset is the slot read
+    if len(rd) == 1 and len(st) == 1:
+        if c05.resolve(rh.term(rh.kids(st[0]["id"])[0])[1], rdefs) != c05.resolve(rh.term(rd[0]["args"][0]), rdefs):
+            st = []
     inst = CLM + "::ReadAllWaveHeaders#cbSize-reset"
     req = "each format slot's cbSize is reset right after the 18-byte read (a 16-byte fmt payload leaves it holding the next chunk's bytes), before formats are compared"
     if len(rd) == 1 and len(st) == 1 and st[0]["id"] > rd[0]["id"]:
